@@ -54,6 +54,7 @@ type Profile struct {
 	KeepSharedConnected bool
 	DupQ2Pct            int
 	CollidePct          int
+	CollideNextPct      int // own QoS 2 publishes under the id the broker will assign next (PUBREL withheld), without the other collision games
 	Size                []int
 	SlotFilters         map[int][]string // optional per-slot filter sets
 	NoWillSlots         map[int]bool
@@ -307,12 +308,17 @@ func (p *Profile) Generate(r *vk.Rand) (*Config, []string, []Op) {
 			}
 			if op.QoS > 0 && r.Chance(p.CollidePct) {
 				op.Collide = true
-			} else if op.QoS == 2 && op.PID == 0 && p.CollidePct > 0 && r.Chance(p.CollidePct) {
+			} else if op.QoS == 2 && op.PID == 0 && ((p.CollidePct > 0 && r.Chance(p.CollidePct)) || (p.CollideNextPct > 0 && r.Chance(p.CollideNextPct))) {
 				op.CollideNext = true
 				st.heldNext[slot]++
 			}
 			ops = append(ops, op)
 		case "retransmit":
+			if st.connected[slot] && st.heldNext[slot] > 0 && p.CollideNextPct > 0 && r.Chance(50) {
+				// DUP retransmission of the oldest own QoS 2 publish made under a runtime-chosen id
+				ops = append(ops, Op{Kind: "publish", C: slot, QoS: 2, Dup: true, HeldDup: true, Topic: vk.Pick(r, p.Topics), Hold: true})
+				continue
+			}
 			if !st.connected[slot] || len(st.pendingQ2[slot]) == 0 {
 				continue
 			}
